@@ -279,6 +279,18 @@ def make_faults(ctx, rng, thorough):
     for o in (len(blob2) // 2, len(blob2) - 3):
         yield Fault(f"truncate-big-gz-R2@{o}of{len(blob2)}", {"in1.fq": tb.encode(), "in2.fq.gz": blob2[:o]}, "two", True,
                     {"in1.fq": tb, "in2.fq.gz": tb2}, detail="paired, R2 gzip truncated")
+    # (a'') white space after the last record (empty lines, a lone CR LF): not a record; odd and even record counts, since
+    # the chunk reader cuts FASTQ at even record counts and the stray lines can end up alone in the last chunk
+    for cnt in (n, n - 1):
+        body = fastx.format_fastq(recs1[:cnt])
+        for tail in ("\n", "\n\n\n", "\r\n"):
+            pref, wf = wf_prefix_fastq(body + tail)
+            if wf:
+                continue
+            yield Fault(f"trailing-blank-lines@{cnt}rec", {"in1.fq": (body + tail).encode()}, None, True, {"in1.fq": pref}, detail=f"{cnt} records followed by {tail!r}")
+    pref, wf = wf_prefix_fastq(tb + "\n")
+    if not wf:
+        yield Fault("trailing-blank-lines-big@900rec", {"in1.fq": (tb + "\n").encode()}, None, True, {"in1.fq": pref}, detail="900+ records followed by an empty line")
     # (d0) interleaved FASTA whose last pair lacks its second read (cut at a record boundary): malformed for a paired run
     inter_recs = [x for pair in zip(recs1, recs2) for x in pair]
     for npairs in sorted({1, n // 2, n - 1}):
@@ -453,7 +465,7 @@ def run_shard(ctx):
             if state["timeouts"] >= 3:
                 ctx.mark_inconclusive("three runs exceeded the watchdog; shard stopped early")
                 return
-            if not thorough and fi % 2 != ctx.shard % 2 and not fault.label.startswith(("corrupt", "mate", "interleaved-odd", "interleaved-fasta", "truncate-big")):
+            if not thorough and fi % 2 != ctx.shard % 2 and not fault.label.startswith(("corrupt", "mate", "interleaved-odd", "interleaved-fasta", "truncate-big", "trailing-blank")):
                 continue
             size = sum(len(b) for b in fault.files.values())
             combos = [(1, 0, None)]
